@@ -290,7 +290,7 @@ func planC15(w *World, spec RunSpec) {
 	w.drawFaultMix("err-before", "lost-response", "crash", "compaction", "duplicate")
 	w.Cfg.Faults["drift"] = !w.Cfg.FaultFree
 	w.Cfg.Ndist = 80 + s.Intn(400, "ndist")
-	w.Scenario = GenOS(w, OSProfile{MaxSets: 3, Delegation: true, DelegateMask: 1 + s.Intn(7, "delegate-mask"), Lifecycle: true, LateCreate: true, Preexisting: 3, Intruder: "boundary", NoForge: true, NeverReady: s.Bool("never-ready")})
+	w.Scenario = GenOS(w, OSProfile{MaxSets: 3, Delegation: true, DelegateMask: 1 + s.Intn(7, "delegate-mask"), Lifecycle: true, LateCreate: true, Preexisting: 3, Intruder: "boundary", NoForge: true, PhaseObjectDrift: s.Bool("phase-object-drift"), NeverReady: s.Bool("never-ready")})
 	w.Cfg.StopOn = "C15"
 	w.StartProcesses()
 	w.Disturb(w.Cfg.Ndist)
